@@ -387,6 +387,22 @@ impl Default for AccumulatorState {
     }
 }
 
+/// Evaluate an aggregate's input expression for the accumulators in this
+/// file. Join gathers may hand over dictionary-encoded string columns
+/// (small-build encoding in hash_join); the accumulators downcast by concrete
+/// array type and silently skip rows of any type they don't know, so a
+/// dictionary input made MIN/MAX (and ANY_VALUE, LISTAGG, ...) finalize as
+/// NULL. Normalize to the value type here — one choke point for every path.
+fn evaluate_agg_input(batch: &RecordBatch, expr: &Expr) -> Result<ArrayRef> {
+    let arr = evaluate_expr(batch, expr)?;
+    match arr.data_type() {
+        DataType::Dictionary(_, value_type) => {
+            arrow::compute::cast(arr.as_ref(), value_type).map_err(Into::into)
+        }
+        _ => Ok(arr),
+    }
+}
+
 fn aggregate_batches(
     batches: &[RecordBatch],
     group_by: &[Expr],
@@ -572,7 +588,7 @@ fn aggregate_batches_vectorized(
 
         let agg_inputs: Result<Vec<ArrayRef>> = aggregates
             .iter()
-            .map(|a| evaluate_expr(batch, &a.input))
+            .map(|a| evaluate_agg_input(batch, &a.input))
             .collect();
         all_agg_inputs.push(agg_inputs?);
     }
@@ -1329,7 +1345,7 @@ fn build_partial_hash_table(
         // Evaluate aggregate inputs
         let agg_inputs: Result<Vec<ArrayRef>> = aggregates
             .iter()
-            .map(|a| evaluate_expr(batch, &a.input))
+            .map(|a| evaluate_agg_input(batch, &a.input))
             .collect();
         let agg_inputs = agg_inputs?;
 
@@ -1505,7 +1521,7 @@ fn aggregate_scalar_simd(
     aggregate: &AggregateExpr,
     schema: &SchemaRef,
 ) -> Result<RecordBatch> {
-    let input = evaluate_expr(batch, &aggregate.input)?;
+    let input = evaluate_agg_input(batch, &aggregate.input)?;
 
     let result: ArrayRef = match aggregate.func {
         AggregateFunction::Count => {
@@ -1565,16 +1581,15 @@ fn aggregate_scalar_simd(
                 )));
             }
         }
+        // MIN/MAX over zero non-NULL inputs is NULL, like SUM/AVG above — an
+        // `unwrap_or(type extreme)` here leaked i64::MAX / f64::MAX / an
+        // out-of-range Date32 for all-NULL columns and empty inputs.
         AggregateFunction::Min => {
             if let Some(a) = input.as_any().downcast_ref::<Int64Array>() {
-                let min = a.iter().flatten().min().unwrap_or(i64::MAX);
+                let min = a.iter().flatten().min();
                 Arc::new(Int64Array::from(vec![min]))
             } else if let Some(a) = input.as_any().downcast_ref::<Float64Array>() {
-                let min = a
-                    .iter()
-                    .flatten()
-                    .min_by(|a, b| a.partial_cmp(b).unwrap())
-                    .unwrap_or(f64::MAX);
+                let min = a.iter().flatten().min_by(|a, b| a.partial_cmp(b).unwrap());
                 Arc::new(Float64Array::from(vec![min]))
             } else if let Some(a) = input.as_any().downcast_ref::<StringArray>() {
                 let min = a.iter().flatten().min();
@@ -1583,7 +1598,7 @@ fn aggregate_scalar_simd(
                     None => Arc::new(StringArray::from(vec![Option::<&str>::None])),
                 }
             } else if let Some(a) = input.as_any().downcast_ref::<Date32Array>() {
-                let min = a.iter().flatten().min().unwrap_or(i32::MAX);
+                let min = a.iter().flatten().min();
                 Arc::new(Date32Array::from(vec![min]))
             } else {
                 return Err(QueryError::NotImplemented(format!(
@@ -1594,14 +1609,10 @@ fn aggregate_scalar_simd(
         }
         AggregateFunction::Max => {
             if let Some(a) = input.as_any().downcast_ref::<Int64Array>() {
-                let max = a.iter().flatten().max().unwrap_or(i64::MIN);
+                let max = a.iter().flatten().max();
                 Arc::new(Int64Array::from(vec![max]))
             } else if let Some(a) = input.as_any().downcast_ref::<Float64Array>() {
-                let max = a
-                    .iter()
-                    .flatten()
-                    .max_by(|a, b| a.partial_cmp(b).unwrap())
-                    .unwrap_or(f64::MIN);
+                let max = a.iter().flatten().max_by(|a, b| a.partial_cmp(b).unwrap());
                 Arc::new(Float64Array::from(vec![max]))
             } else if let Some(a) = input.as_any().downcast_ref::<StringArray>() {
                 let max = a.iter().flatten().max();
@@ -1610,7 +1621,7 @@ fn aggregate_scalar_simd(
                     None => Arc::new(StringArray::from(vec![Option::<&str>::None])),
                 }
             } else if let Some(a) = input.as_any().downcast_ref::<Date32Array>() {
-                let max = a.iter().flatten().max().unwrap_or(i32::MIN);
+                let max = a.iter().flatten().max();
                 Arc::new(Date32Array::from(vec![max]))
             } else {
                 return Err(QueryError::NotImplemented(format!(
@@ -2022,7 +2033,7 @@ fn aggregate_batches_hash(
         // Evaluate aggregate inputs
         let agg_inputs: Result<Vec<ArrayRef>> = aggregates
             .iter()
-            .map(|a| evaluate_expr(batch, &a.input))
+            .map(|a| evaluate_agg_input(batch, &a.input))
             .collect();
         let agg_inputs = agg_inputs?;
 
